@@ -32,7 +32,21 @@ type epPlan struct {
 	AfterEOF   bool  `json:"read_after_eof"`
 }
 
+// opsCap bounds the number of Write calls one direction needs.
+const opsCap = 120
+
+// planEndpoint is the plan of one endpoint. The read buffer is widened so
+// that draining what the peer plans to write takes a bounded number of calls.
 func planEndpoint(seed int64, sess int, id uint64, side int, budget int) epPlan {
+	p := rawPlan(seed, sess, id, side, budget)
+	peer := rawPlan(seed, sess, id, 1-side, budget)
+	if need := peer.Total / opsCap; p.MaxRead < need {
+		p.MaxRead = need
+	}
+	return p
+}
+
+func rawPlan(seed int64, sess int, id uint64, side int, budget int) epPlan {
 	rng := rand.New(rand.NewSource(int64(mix64(uint64(seed)^mix64(uint64(sess))^mix64(id*2+uint64(side))))))
 	p := epPlan{EarlyClose: -1}
 	switch rng.Intn(6) {
@@ -45,6 +59,10 @@ func planEndpoint(seed int64, sess int, id uint64, side int, budget int) epPlan 
 	}
 	p.MaxWrite = []int{1, 16, 4096, 200 << 10}[rng.Intn(4)]
 	p.MaxRead = []int{1, 64, 4096, 100 << 10}[rng.Intn(4)]
+	// Bound the number of calls, not only the bytes: about opsCap writes.
+	if lim := opsCap * p.MaxWrite / 2; p.Total > lim {
+		p.Total = lim
+	}
 	if rng.Intn(4) == 0 {
 		p.End = 1
 	}
@@ -133,7 +151,7 @@ type c23Session struct {
 	mu       sync.Mutex
 	streams  map[uint64]*[2]*endpoint
 	started  int
-	epWG     sync.WaitGroup
+	finished atomic.Int64
 	rejected atomic.Int64
 }
 
@@ -339,7 +357,6 @@ func (cs *c23Session) startEndpoint(st *multiplexing.Stream, side int, opener bo
 	pair[side] = e
 	cs.started++
 	cs.mu.Unlock()
-	cs.epWG.Add(1)
 	base := int64(mix64(uint64(cs.seed) ^ mix64(uint64(cs.idx)*7919+id*4+uint64(side))))
 	var wg sync.WaitGroup
 	wg.Add(2)
@@ -360,7 +377,7 @@ func (cs *c23Session) startEndpoint(st *multiplexing.Stream, side int, opener bo
 	go func() {
 		wg.Wait()
 		e.issueClose()
-		cs.epWG.Done()
+		cs.finished.Add(1)
 	}()
 }
 
@@ -444,16 +461,17 @@ func runC23Session(r *vk.Run, idx int, cfg sessCfg, nStreams int, budget int, sr
 	done := make(chan struct{})
 	go func() {
 		openWG.Wait()
+		// Every successful open has exactly one accepted counterpart; the
+		// session is complete when both endpoints of every stream are done.
 		for !cs.aborted.Load() {
 			cs.mu.Lock()
 			st := cs.started
 			cs.mu.Unlock()
-			if int64(st) >= 2*opened.Load() {
+			if int64(st) >= 2*opened.Load() && cs.finished.Load() >= int64(st) {
 				break
 			}
-			time.Sleep(200 * time.Microsecond)
+			time.Sleep(500 * time.Microsecond)
 		}
-		cs.epWG.Wait()
 		close(done)
 	}()
 	last, lastAt := cs.progress.Load(), time.Now()
@@ -682,12 +700,12 @@ func c23() {
 			}
 			// Scale the volume to the window: a window of w bytes costs about one
 			// carrier round trip per w bytes, and round trips are what takes time.
-			roundTrips := 1200 / nStreams
-			if roundTrips < 12 {
-				roundTrips = 12
+			roundTrips := 400 / nStreams
+			if roundTrips < 8 {
+				roundTrips = 8
 			}
 			budget := cfg.Window * roundTrips
-			if cap := (3 << 20) / nStreams; budget > cap {
+			if cap := (2 << 20) / nStreams; budget > cap {
 				budget = cap
 			}
 			srng := rand.New(rand.NewSource(rng.Int63()))
@@ -695,8 +713,9 @@ func c23() {
 			wg.Add(1)
 			go func() {
 				defer wg.Done()
+				t0 := time.Now()
 				res := runC23Session(r, idx, cfg, nStreams, budget, srng)
-				fmt.Printf("done session=%d outcome=%s opened=%d rejected=%d bytes=%d eofs=%d\n", idx, res.Outcome, res.Opened, res.Rejected, res.Bytes, res.EOFs)
+				fmt.Printf("done session=%d wall=%.1fs outcome=%s opened=%d rejected=%d bytes=%d eofs=%d\n", idx, time.Since(t0).Seconds(), res.Outcome, res.Opened, res.Rejected, res.Bytes, res.EOFs)
 				mu.Lock()
 				for k, v := range res.Wire.Messages {
 					kindTotals[k] += v
